@@ -17,7 +17,7 @@ import numpy as np
 import z3
 from numba.core import types
 
-from ..core import Ctx, Cut, Inconclusive, SBool, SInt, SReal, Unsupported, explore, rebind, rebind_class, wrap
+from ..core import NumpyFallback, Ctx, Cut, Inconclusive, SBool, SInt, SReal, Unsupported, explore, rebind, rebind_class, wrap
 from ..nbsym import Interp, KernelRaise, NArr, Sym, capture, sym_array
 
 f4 = types.float32
@@ -353,7 +353,7 @@ class OArr(np.ndarray):
         return out.view(OArr)
 
 
-class NPdelay:
+class NPdelay(metaclass=NumpyFallback):
     float32 = np.float32
     int32 = np.int32
     newaxis = np.newaxis
